@@ -8,6 +8,7 @@ closed, …) — `Reach p n s` is the closure of `St.init n` under `step p · t 
 import GoZero.C05.Proofs
 import GoZero.C05.ProofsSem
 import GoZero.C05.ProofsPool
+import GoZero.C05.ProofsHist
 namespace GoZero.C05
 
 /-! ## 1. every site: the cap, no leak, no spurious error -/
@@ -304,5 +305,43 @@ example :
 
 example : ((Pool.init 1 10).put 0 5).get 20 = ({ limit := 1, maxAge := 10, created := 0, idle := [], next := 1 }, .got 0 true [0]) := by
   decide
+
+/-! ## 5. the history monitor is sound for the model -/
+
+/-- For every disciplined site program, capacity, number of threads and schedule: the history of
+enter/exit events the model produces is accepted by the executable monitor `HistMon` used on the
+implementation's histories (no cap alarm at any prefix), and if all threads have finished the final check
+(nobody inside, measured free capacity `n`) passes too. -/
+theorem hist_monitor_sound (p : Prog) (hp : okProg p = true) (n : Nat) (sched : List (Tid × Bool)) :
+    ∃ m', HistMon.feed { cap := n, inside := [] } (histOf p (St.init n) sched).1 = some m' ∧
+      ((∀ t, idle p (histOf p (St.init n) sched).2 t = true) →
+        m'.final ((histOf p (St.init n) sched).2.cap - (histOf p (St.init n) sched).2.used) = .ok) := by
+  have hm0 : MonRel p (St.init n) { cap := n, inside := [] } := by
+    refine ⟨List.nodup_nil, ?_⟩
+    intro t
+    simp only [List.not_mem_nil, false_iff]
+    intro hc
+    have := inCrit_holds hp hc
+    simp only [St.init] at this
+    rw [okProg_zero hp] at this
+    cases this
+  obtain ⟨m', hf, hcap, hrel, hreach⟩ := feed_sound hp sched Reach.init { cap := n, inside := [] } rfl hm0
+  refine ⟨m', hf, ?_⟩
+  intro hq
+  have hnl := sem_no_leak p hp n _ hreach hq
+  have hempty : m'.inside = [] := by
+    cases hin : m'.inside with
+    | nil => rfl
+    | cons a rest =>
+      have ha : a ∈ m'.inside := by rw [hin]; simp
+      have h1 := inCrit_holds hp ((hrel.mem a).mp ha)
+      rw [idle_not_holds hp (hq a)] at h1
+      cases h1
+  simp [HistMon.final, hempty, hnl.1, hnl.2, hcap]
+
+/-- non-vacuity: the history of the schedule used above (two holders inside at once with `n = 2`). -/
+example : (histOf Programs.limitClient (St.init 2)
+      [(0, true), (0, false), (0, false), (1, false), (1, false), (2, false), (2, false), (0, true), (1, false)]).1
+    = [.enter 0, .enter 1, .exit 0, .exit 1] := by decide
 
 end GoZero.C05
